@@ -126,28 +126,58 @@ def real_send(mtu, xid, data):
     return (frames, len(frames) < limit)
 
 
-def mk_conv(num):
+LOCAL_MAC = bytes([0, 0x11, 0x22, 0x33, 0x44, 0xff])
+
+
+def conv_desc(cnum):
+    ''' A conversation is (peer number, VLAN tag or None); a bare number means no VLAN tag. '''
+    return cnum if isinstance(cnum, tuple) else (cnum, None)
+
+
+def peer_mac(num):
+    return bytes([0, 0x11, 0x22, 0x33, 0x44, num & 0xFF])
+
+
+def mk_conv(cnum):
+    (num, vlan) = conv_desc(cnum)
     return bagent.EthernetChannel(
         local_if='eth0',
-        peer_address=bagent.macaddress.EUI48(bytes([0, 0x11, 0x22, 0x33, 0x44, num & 0xFF])),
-        local_address=bagent.macaddress.EUI48('00:11:22:33:44:ff'),
+        peer_address=bagent.macaddress.EUI48(peer_mac(num)),
+        local_address=bagent.macaddress.EUI48(LOCAL_MAC),
+        vlan_tag=vlan,
     )
 
 
+def chan_tuple(cnum):
+    ''' The channel as the model names it: (local_if, peer, local, [vlan]) with 'eth0' = 1 and
+    addresses as the 48-bit values of their octets. '''
+    (num, vlan) = conv_desc(cnum)
+    return (1, int.from_bytes(peer_mac(num), 'big'), int.from_bytes(LOCAL_MAC, 'big'), [] if vlan is None else [vlan])
+
+
+def addr_value(text):
+    ''' '00-11-22-33-44-01' / '00:11:...' -> 48-bit value; anything else -> the text itself '''
+    try:
+        return int(str(text).replace('-', '').replace(':', ''), 16)
+    except ValueError:
+        return str(text)
+
+
 def real_recv(arrival):
-    ''' Feed (conversation number, frame octets) pairs to a fresh agent's
-    receive function.  Observations: after each frame the number of
-    recv_bundle_finished signals so far and whether an exception escaped; at
-    the end the signals, the queue as listed and popped over the D-Bus
-    methods, the registered timers and (best effort, private) the transfers
-    still in progress. '''
+    ''' Feed (conversation, frame octets) pairs to a fresh agent's receive
+    function; a conversation is a peer number or (peer number, VLAN tag).
+    Observations: after each frame the number of recv_bundle_finished
+    signals so far and whether an exception escaped; at the end the signals
+    (id, length, id as sent, peer address from the metadata), the queue as
+    listed and popped over the D-Bus methods, the registered timers and (best
+    effort, private) the transfers still in progress. '''
     agent = mk_agent(None)
     del dbus.service.EVENT_LOG[:]
     GLib.CTX.reset()
     convs = {}
     trace = []
     for (cnum, frame) in arrival:
-        conv = convs.setdefault(cnum, mk_conv(cnum))
+        conv = convs.setdefault(conv_desc(cnum), mk_conv(cnum))
         raised = False
         try:
             agent._recv_msg(None, bytes(frame), conv)
@@ -156,21 +186,24 @@ def real_recv(arrival):
         nsig = len([evt for evt in dbus.service.EVENT_LOG
                     if evt['kind'] == 'signal' and evt['name'] == 'recv_bundle_finished'])
         trace.append((nsig, raised))
-    signals = [(int(evt['args'][0]), int(evt['args'][1]), str(evt['args'][0]))
-               for evt in dbus.service.EVENT_LOG
-               if evt['kind'] == 'signal' and evt['name'] == 'recv_bundle_finished']
+    signals = []
+    for evt in dbus.service.EVENT_LOG:
+        if evt['kind'] == 'signal' and evt['name'] == 'recv_bundle_finished':
+            meta = evt['args'][2] if len(evt['args']) > 2 and isinstance(evt['args'][2], dict) else {}
+            signals.append((int(evt['args'][0]), int(evt['args'][1]), str(evt['args'][0]), addr_value(meta.get('address'))))
     timers = len([src for src in GLib.CTX.sources.values() if src.kind == 'timeout'])
     progress = None
     raw_prog = getattr(agent, '_rx_progres', None)
     if isinstance(raw_prog, dict):
         try:
-            keyconv = dict((conv.key, cnum) for (cnum, conv) in convs.items())
+            keyconv = {}
+            for (desc, conv) in convs.items():
+                keyconv.setdefault(conv.key, desc)
             progress = []
             for ((ckey, xnum), xfer) in raw_prog.items():
                 idxs = sorted(xfer.data.keys())
-                progress.append((keyconv[ckey], int(xnum),
-                                 [] if xfer.got_end is None else [int(xfer.got_end)], idxs))
-            progress.sort()
+                progress.append(chan_tuple(keyconv[ckey]) + (int(xnum), [] if xfer.got_end is None else [int(xfer.got_end)], idxs))
+            progress.sort(key=repr)
         except Exception:
             progress = None
     queue_ids = [str(bid) for bid in agent.recv_bundle_get_queue()]
@@ -462,8 +495,13 @@ def c_xfer(mtu, xid, seed, length, order):
                                      coq_list([coq_nat(pos) for pos in order], 'nat'))
 
 
+def c_chan(cnum):
+    chan = chan_tuple(cnum)
+    return '(%s, %s, %s, %s)' % (coq_N(chan[0]), coq_N(chan[1]), coq_N(chan[2]), coq_list([coq_N(v) for v in chan[3]], 'N'))
+
+
 def c_recv(arrival):
-    return coq_list(['(%s, %s)' % (coq_N(cnum), cb(frame)) for (cnum, frame) in arrival], '(N * list N)')
+    return coq_list(['(%s, %s)' % (c_chan(cnum), cb(frame)) for (cnum, frame) in arrival], '(N * N * N * list N * list N)')
 
 
 def samp(chk, limit, obj):
@@ -539,7 +577,7 @@ def gen_codec_cases(chk):
     cases.append(([(2, None, [], 0, 0, b'z')] * 101, b''))
     cases.append(([], b''))
     cases.append(([], b'\x00\x00\x00'))
-    count = 140 if chk.quick() else 1500
+    count = 70 if chk.quick() else 1500
     for num in range(count):
         nmsg = rng.choice([1, 1, 2, 3, 5])
         msgs = [gen_msg(rng, big=(num % 40 == 0 and pos == 0)) for pos in range(nmsg)]
@@ -557,7 +595,7 @@ def gen_decode_cases(chk, encodings):
              '0300000900000001000000027a', '0400000900000001000000007a', '05000004000000ff',
              '0500000300000f', '0100000400000000', '0280000300000162']
     cases = [bytes.fromhex(item) for item in fixed]
-    count = 120 if chk.quick() else 1500
+    count = 80 if chk.quick() else 1500
     pool = [enc for enc in encodings if len(enc) <= 600]
     for _ in range(count):
         base = bytearray(rng.choice(pool)) if pool else bytearray()
@@ -843,6 +881,133 @@ def oracle_padded(bundles, obs):
 
 
 # ----------------------------------------------------------------------------------------------
+# several transfers in progress at once: 2-3 peers, VLAN tags, equal and different transfer numbers
+
+def interleave(kind, counts, prng):
+    ''' An arrival [(transfer, frame position)] in which every frame of every transfer occurs once. '''
+    def rr(seqs):
+        out = []
+        for pos in range(max(len(seq) for seq in seqs)):
+            for seq in seqs:
+                if pos < len(seq):
+                    out.append(seq[pos])
+        return out
+    fwd = [[(tnum, pos) for pos in range(cnt)] for (tnum, cnt) in enumerate(counts)]
+    if kind == 'round-robin':
+        return rr(fwd)
+    if kind == 'round-robin-reversed':
+        return rr([list(reversed(seq)) for seq in fwd])
+    if kind == 'round-robin-mixed':
+        return rr([seq if tnum % 2 == 0 else list(reversed(seq)) for (tnum, seq) in enumerate(fwd)])
+    if kind == 'sequential':
+        return [item for seq in fwd for item in seq]
+    if kind == 'sequential-reversed':
+        return [item for seq in reversed(fwd) for item in reversed(seq)]
+    if kind == 'random':
+        seqs = [list(seq) for seq in fwd]
+        for seq in seqs:
+            prng.shuffle(seq)
+        out = []
+        while any(seqs):
+            seq = prng.choice([seq for seq in seqs if seq])
+            out.append(seq.pop(0))
+        return out
+    raise ValueError(kind)
+
+
+INTERLEAVINGS = ('round-robin', 'round-robin-reversed', 'round-robin-mixed', 'sequential', 'sequential-reversed')
+
+
+def gen_multi_cases(chk):
+    ''' (transfers [(peer, vlan|None, xid, mtu, seed, length)], arrival [(transfer, position)], class name).
+    Keys (peer, vlan, xid) are pairwise different within a case. '''
+    import random
+    rng = chk.rng
+    shapes = [
+        ('two peers, same number',            [(1, None, 0), (2, None, 0)]),
+        ('two peers, different numbers',      [(1, None, 0), (2, None, 1)]),
+        ('three peers, same number',          [(1, None, 0), (2, None, 0), (3, None, 0)]),
+        ('one peer, two numbers',             [(1, None, 0), (1, None, 1)]),
+        ('one peer, two VLAN tags, same number', [(1, 5, 0), (1, 6, 0)]),
+        ('one peer, tagged and untagged',     [(1, None, 7), (1, 5, 7)]),
+        ('two peers, same VLAN tag, same number', [(1, 5, 0), (2, 5, 0)]),
+        ('two peers and a second number',     [(1, None, 0), (2, None, 0), (1, None, 1)]),
+        ('three peers, tags and numbers mixed', [(1, 5, 0), (2, 5, 0), (3, 6, 0)]),
+    ]
+    cases = []
+    nrandom = 2 if chk.quick() else 25
+    for (name, keys) in shapes:
+        for rep in range(1 if chk.quick() else 4):
+            transfers = []
+            for (peer, vlan, xid) in keys:
+                mtu = rng.choice([19, 20, 25, 40])
+                seg = mtu - 18
+                nseg = rng.choice([2, 3, 3, 4, 5])
+                length = max(seg * (nseg - 1) + rng.randrange(1, seg + 1), mtu - 4)
+                transfers.append((peer, vlan, xid, mtu, rng.randrange(1, 2 ** 31), length))
+            counts = [len(real_send(t[3], t[2], gdata(t[4], t[5]))[0]) for t in transfers]
+            for kind in INTERLEAVINGS:
+                cases.append((transfers, interleave(kind, counts, None), name + ' / ' + kind))
+            for _ in range(nrandom):
+                cases.append((transfers, interleave('random', counts, random.Random(rng.randrange(2 ** 31))), name + ' / random'))
+    return cases
+
+
+def run_multi_real(transfers, arrival):
+    ''' :return: (observations, [(data, peer address value, index of the arrival that completes it)]) or None
+    if the arrival is not "every frame of every transfer exactly once". '''
+    frames = [real_send(t[3], t[2], gdata(t[4], t[5]))[0] for t in transfers]
+    want = sorted((tnum, pos) for (tnum, frs) in enumerate(frames) for pos in range(len(frs)))
+    if sorted((a[0], a[1]) for a in arrival) != want:
+        return None
+    obs = real_recv([((transfers[tnum][0], transfers[tnum][1]), frames[tnum][pos]) for (tnum, pos) in arrival])
+    bundles = []
+    for (tnum, trn) in enumerate(transfers):
+        done = max(idx for (idx, (anum, _p)) in enumerate(arrival) if anum == tnum)
+        bundles.append((gdata(trn[4], trn[5]), chan_tuple((trn[0], trn[1]))[1], done))
+    return (obs, bundles)
+
+
+def oracle_multi(bundles, obs):
+    ''' Per (peer, transfer): each segment once, in any order, interleaved with
+    anything of other keys => exactly that bundle queued exactly once (when its
+    last segment arrives, not earlier), attributed to that peer and to nothing else. '''
+    if any(raised for (_n, raised) in obs['trace']):
+        return 'exception escaped the receive function'
+    counts = [nsig for (nsig, _r) in obs['trace']]
+    want = [sum(1 for (_d, _a, done) in bundles if done <= pos) for pos in range(len(counts))]
+    for (got, exp) in zip(counts, want):
+        if got > exp:
+            return 'bundle queued before every segment of its transfer had arrived (signal counts %s, expected %s)' % (counts, want)
+        if got < exp:
+            return 'bundle not queued although every segment of its transfer has arrived (signal counts %s, expected %s)' % (counts, want)
+    order = sorted(bundles, key=lambda ent: ent[2])
+    queued = dict(obs['queue'])
+    if len(obs['queue']) != len(bundles) or len(obs['signals']) != len(bundles):
+        return 'expected %d queued bundles, got %d (signals %d)' % (len(bundles), len(obs['queue']), len(obs['signals']))
+    for ((data, addr, _done), sig) in zip(order, obs['signals']):
+        if queued.get(sig[0]) != data:
+            return 'queued data of bundle %d is not the bundle whose last segment had just arrived' % sig[0]
+        if sig[1] != len(data):
+            return 'recv_bundle_finished length %d does not describe the queued bundle (%d octets)' % (sig[1], len(data))
+        if sig[3] != addr:
+            return 'bundle attributed to peer %r instead of %r' % (sig[3], addr)
+    if obs['left']:
+        return 'popped bundle still listed in the queue'
+    return None
+
+
+def c_multi(transfers, arrival):
+    xfers = []
+    for (peer, vlan, xid, mtu, seed, length) in transfers:
+        chan = chan_tuple((peer, vlan))
+        xfers.append('((%s, %s, %s, %s), %s, %s, %s, %s)' % (
+            coq_N(chan[0]), coq_N(chan[1]), coq_N(chan[2]), coq_list([coq_N(v) for v in chan[3]], 'N'),
+            coq_N(mtu), coq_N(xid), coq_N(seed), coq_N(length)))
+    return '(%s, %s)' % (coq_list(xfers), coq_list(['(%s, %s)' % (coq_nat(t), coq_nat(p)) for (t, p) in arrival], '(nat * nat)'))
+
+
+# ----------------------------------------------------------------------------------------------
 # suites: run impl + oracle per case; model comparison in bulk
 
 class Runner(object):
@@ -907,6 +1072,14 @@ class Runner(object):
             self.chk.fail('C20 / recv-padded / %s / %s' % (layout, why.split('(')[0].strip()[:60]),
                           'mtu=%d len=%d order=%s layout=%s: %s' % (mtu, length, order, layout, why),
                           dict(suite='padxfer', case=[mtu, xid, seed, length, list(order), layout, rseed]))
+        return why
+
+    def check_multi(self, transfers, arrival, name, bundles, obs):
+        why = oracle_multi(bundles, obs)
+        if why:
+            self.chk.fail('C20 / recv-several-transfers / %s / %s' % (name.split(' / ')[0], why.split('(')[0].strip()[:60]),
+                          '%s: transfers (peer, vlan, xfer_num, mtu, seed, len) %s arrival %s: %s' % (name, transfers, arrival, why),
+                          dict(suite='multi', transfers=[list(t) for t in transfers], arrival=[list(a) for a in arrival], kind=name))
         return why
 
     def impl_xfer(self, case):
@@ -1026,7 +1199,11 @@ def run_all(chk):
                                               signal_counts=[n for (n, _r) in obs['trace']])) if nseg == 4 and order[0] == 3 else None)
             chk.count('recv_segments', nseg if nseg <= 5 else '>5')
             # the same arrival order, re-framed by the independent encoder with padding in every position
-            for layout in LAYOUTS[1:]:
+            layouts = list(LAYOUTS[1:])
+            if chk.quick():     # three of the seven layouts per order, rotating; all seven in the thorough tier
+                rot = len(xfer_cases) * 3
+                layouts = [layouts[(rot + off) % len(layouts)] for off in range(3)]
+            for layout in layouts:
                 pcase = (mtu, xid, seed, length, order, layout, rng.randrange(2 ** 31))
                 comp = compose_padded(*pcase)
                 if comp is None:
@@ -1041,6 +1218,22 @@ def run_all(chk):
                                                   frames=[frm.hex()[:64] for (_c, frm) in arrival][:3],
                                                   signal_counts=[n for (n, _r) in pobs['trace']])) if nseg == 3 and layout in ('pad-before', 'two-transfers') else None)
                 chk.count('recv_padded_layout', layout)
+    # several transfers in progress at once (peers, VLAN tags, transfer numbers; interleaved)
+    multi_cases = gen_multi_cases(chk)
+    multi_impl = []
+    for (transfers, arrival, name) in multi_cases:
+        res = run_multi_real(transfers, arrival)
+        multi_impl.append(res[0] if res else None)
+        if res is None:
+            continue
+        run.check_multi(transfers, arrival, name, res[1], res[0])
+        chk.case(('multi', tuple(transfers), tuple(arrival)), nontrivial=True,
+                 sample=samp(chk, 10, dict(suite='recv-several-transfers', kind=name,
+                                           transfers=[dict(peer=t[0], vlan=t[1], xfer_num=t[2], mtu=t[3], length=t[5]) for t in transfers],
+                                           arrival=[list(a) for a in arrival], signal_counts=[n for (n, _r) in res[0]['trace']]))
+                 if name.endswith('round-robin') else None)
+        chk.count('recv_several_transfers', name.split(' / ')[0])
+        chk.count('recv_interleaving', name.split(' / ')[1])
     # peer-crafted arrivals: quirks of the receive path (no verdict, correspondence only)
     recv_cases = gen_recv_cases(chk)
     recv_impl = []
@@ -1056,152 +1249,197 @@ def run_all(chk):
         return run
 
     # ======================= phase 2: the model on the same cases =============================
-    # ---- (a) codec
-    keep = [pos for (pos, impl) in enumerate(codec_impl) if 'error' not in impl]
+    # Every model evaluation of every suite goes into ONE batch of coqc runs (start-up of coqc is
+    # what costs on a loaded machine): jobs are de-duplicated by their Coq term, dealt by estimated
+    # cost into as many shards as there are cores to spare, evaluated once, then compared suite by suite.
+    jobs = []   # (term, weight, compare(result))
 
-    def frame_size(pos):
-        return sum(len(case[5]) for case in codec_cases[pos][0])
-    small = [pos for pos in keep if frame_size(pos) <= BIG]
-    large = [pos for pos in keep if frame_size(pos) > BIG]
-    model_small = chk.coq_eval('codec', ['Model.Btpu'], [c_codec(*codec_cases[pos]) for pos in small], 'run_codec',
-                               chunk=max(20, len(small) // 10 + 1))
-    model_large = chk.coq_eval('codecbig', ['Model.Btpu'], [c_codec(*codec_cases[pos]) for pos in large], 'run_codec_big',
-                               chunk=max(2, len(large) // 12 + 1))
-    for (pos, mod) in list(zip(small, model_small)) + list(zip(large, model_large)):
-        (msgs, pad) = codec_cases[pos]
-        impl = codec_impl[pos]
-        big = pos in large
-        in_range = all(fits_field_ranges(case) for case in msgs)
-        dis = impl['dis']
-        too_many = len(msgs) > 100 or any(len(c[2]) > 100 for c in msgs)
-        want_wf = in_range and not too_many and all(case[0] != 0 for case in msgs)
-        if big:
-            (m_wf, m_len, m_dig, m_lens, m_dec) = mod
-            enc_same = (m_len, m_dig) == (len(impl['enc']), digest(impl['enc']))
-        else:
-            (m_wf, m_enc, m_lens, m_dec) = mod
-            enc_same = bytes(m_enc) == impl['enc']
-        # correspondence: encoder
-        if not enc_same:
-            run.note_mismatch('codec', 'case %d: model encoding differs from bytes(pkt) (real %s..)' % (pos, impl['enc'].hex()[:48]))
-            continue
-        if bool(m_wf) != want_wf:
-            run.note_mismatch('codec', 'case %d: model well-formedness %s, expected %s' % (pos, m_wf, want_wf))
-        # correspondence: decoder on the encoding
-        if m_dec:
+    def job(func, term, weight, compare):
+        jobs.append(('(%s %s)' % (func, term), weight, compare))
+
+    def spread(items, budget):
+        ''' at most ``budget`` of ``items``, evenly spread (all of them in the thorough tier) '''
+        if len(items) <= budget:
+            return list(items)
+        step = len(items) / float(budget)
+        return [items[int(pos * step)] for pos in range(budget)]
+
+    def sigs(obs):
+        return [(sig[0], sig[1], sig[3]) for sig in obs['signals']]
+
+    # ---- (a) codec
+    def cmp_codec(pos, big):
+        def compare(mod):
+            (msgs, pad) = codec_cases[pos]
+            impl = codec_impl[pos]
+            in_range = all(fits_field_ranges(case) for case in msgs)
+            dis = impl['dis']
+            too_many = len(msgs) > 100 or any(len(c[2]) > 100 for c in msgs)
+            want_wf = in_range and not too_many and all(case[0] != 0 for case in msgs)
             if big:
-                (g_msgs, g_pad) = m_dec[0]
-                got = ([(m[0], m[1], [(h[0], bytes(h[1])) for h in m[2]], m[3], m[4]) for m in g_msgs], bytes(g_pad))
-                real = ([(m[0], m[1], m[2], len(m[3]), digest(m[3])) for m in dis.get('msgs', [])], dis.get('pad'))
+                (m_wf, m_len, m_dig, m_lens, m_dec) = mod
+                enc_same = (m_len, m_dig) == (len(impl['enc']), digest(impl['enc']))
             else:
-                got = canon_model_frame(m_dec[0])
-                real = (dis.get('msgs'), dis.get('pad'), dis.get('views'))
-            if not dis.get('valid') or got != real:
-                run.note_mismatch('codec', 'case %d: model decoding differs from the dissection' % pos)
-            lens_real = [len(layer_bytes(item)) - 4 for item in bm.MessageSet(impl['enc']).msgs]
-            if in_range and list(m_lens) != lens_real:
-                run.note_mismatch('codec', 'case %d: model length fields %s vs real %s' % (pos, m_lens, lens_real))
-        elif dis.get('valid') and not too_many:
-            run.note_mismatch('codec', 'case %d: model rejects a frame the real code dissects cleanly' % pos)
-    chk.obligation('correspondence:codec', not run.mismatch.get('codec'), '; '.join(run.mismatch.get('codec', [])[:3]))
-    lap('codec')
+                (m_wf, m_enc, m_lens, m_dec) = mod
+                enc_same = bytes(m_enc) == impl['enc']
+            if not enc_same:
+                run.note_mismatch('codec', 'case %d: model encoding differs from bytes(pkt) (real %s..)' % (pos, impl['enc'].hex()[:48]))
+                return
+            if bool(m_wf) != want_wf:
+                run.note_mismatch('codec', 'case %d: model well-formedness %s, expected %s' % (pos, m_wf, want_wf))
+            if m_dec:
+                if big:
+                    (g_msgs, g_pad) = m_dec[0]
+                    got = ([(m[0], m[1], [(h[0], bytes(h[1])) for h in m[2]], m[3], m[4]) for m in g_msgs], bytes(g_pad))
+                    real = ([(m[0], m[1], m[2], len(m[3]), digest(m[3])) for m in dis.get('msgs', [])], dis.get('pad'))
+                else:
+                    got = canon_model_frame(m_dec[0])
+                    real = (dis.get('msgs'), dis.get('pad'), dis.get('views'))
+                if not dis.get('valid') or got != real:
+                    run.note_mismatch('codec', 'case %d: model decoding differs from the dissection' % pos)
+                lens_real = [len(layer_bytes(item)) - 4 for item in bm.MessageSet(impl['enc']).msgs]
+                if in_range and list(m_lens) != lens_real:
+                    run.note_mismatch('codec', 'case %d: model length fields %s vs real %s' % (pos, m_lens, lens_real))
+            elif dis.get('valid') and not too_many:
+                run.note_mismatch('codec', 'case %d: model rejects a frame the real code dissects cleanly' % pos)
+        return compare
+
+    for (pos, impl) in enumerate(codec_impl):
+        if 'error' in impl:
+            continue
+        size = sum(len(case[5]) for case in codec_cases[pos][0])
+        big = size > BIG
+        job('run_codec_big' if big else 'run_codec', c_codec(*codec_cases[pos]), 40 + (size // 8 if big else 3 * size), cmp_codec(pos, big))
 
     # ---- (a') decode
-    model = chk.coq_eval('decode', ['Model.Btpu'], [cb(item) for item in dec_cases], 'run_decode',
-                         chunk=max(20, len(dec_cases) // 8 + 1))
-    for (octets, dis, mod) in zip(dec_cases, dec_impl, model):
-        chk.case(('decode', octets), nontrivial=bool(mod), sample=None)
-        chk.count('decode_verdict', 'valid' if mod else 'not-a-valid-frame')
-        if mod:
-            m_frame = mod[0][:3]
-            m_reenc = mod[0][3]
-            if bytes(m_reenc) != octets:
-                run.note_mismatch('decode', '%s: model re-encoding differs' % octets.hex()[:60])
-            if not dis.get('valid') or canon_model_frame(m_frame) != (dis['msgs'], dis['pad'], dis['views']):
-                run.note_mismatch('decode', '%s: model decoding differs from the dissection' % octets.hex()[:60])
-        elif dis.get('valid') and len(dis['msgs']) <= 100:
-            run.note_mismatch('decode', '%s: model rejects a frame the real code dissects cleanly' % octets.hex()[:60])
-    chk.obligation('correspondence:decode', not run.mismatch.get('decode'), '; '.join(run.mismatch.get('decode', [])[:3]))
-    lap('decode')
+    def cmp_decode(octets, dis):
+        def compare(mod):
+            chk.case(('decode', octets), nontrivial=bool(mod), sample=None)
+            chk.count('decode_verdict', 'valid' if mod else 'not-a-valid-frame')
+            if mod:
+                m_frame = mod[0][:3]
+                m_reenc = mod[0][3]
+                if bytes(m_reenc) != octets:
+                    run.note_mismatch('decode', '%s: model re-encoding differs' % octets.hex()[:60])
+                if not dis.get('valid') or canon_model_frame(m_frame) != (dis['msgs'], dis['pad'], dis['views']):
+                    run.note_mismatch('decode', '%s: model decoding differs from the dissection' % octets.hex()[:60])
+            elif dis.get('valid') and len(dis['msgs']) <= 100:
+                run.note_mismatch('decode', '%s: model rejects a frame the real code dissects cleanly' % octets.hex()[:60])
+        return compare
 
-    # ---- (b) send
-    small = [pos for (pos, case) in enumerate(send_cases) if case[3] <= BIG]
-    large = [pos for (pos, case) in enumerate(send_cases) if case[3] > BIG]
-    large.sort(key=lambda pos: send_cases[pos][3])
-    mid = [pos for pos in large if send_cases[pos][3] <= 20000]
-    huge = [pos for pos in large if send_cases[pos][3] > 20000]
-    large = mid + huge
-    model_small = chk.coq_eval('send', ['Model.Btpu'], [c_send(*send_cases[pos]) for pos in small], 'run_send',
-                               chunk=max(20, len(small) // 12 + 1))
-    model_large = (chk.coq_eval('sendmid', ['Model.Btpu'], [c_send(*send_cases[pos]) for pos in mid], 'run_send_big',
-                                chunk=max(8, len(mid) // 12 + 1))
-                   + chk.coq_eval('sendbig', ['Model.Btpu'], [c_send(*send_cases[pos]) for pos in huge], 'run_send_big', chunk=1))
-    for (pos, mod) in zip(small, model_small):
-        got = [bytes(frm) for frm in mod]
-        if got != send_impl[pos][0]:
-            run.note_mismatch('send', 'mtu=%s len=%d: frames differ (model %d frame(s), real %d)' % (
-                send_cases[pos][0], send_cases[pos][3], len(got), len(send_impl[pos][0])))
-    for (pos, mod) in zip(large, model_large):
-        got = [(entry[0], bytes(entry[1]), entry[2]) for entry in mod]
-        want = [(len(frm), frm[:24], digest(frm)) for frm in send_impl[pos][0]]
-        if got != want:
-            run.note_mismatch('send', 'mtu=%s len=%d: frames differ (length/prefix/digest)' % (send_cases[pos][0], send_cases[pos][3]))
-    chk.obligation('correspondence:send', not run.mismatch.get('send'), '; '.join(run.mismatch.get('send', [])[:3]))
-    lap('send')
+    for (octets, dis) in zip(dec_cases, dec_impl):
+        job('run_decode', cb(octets), 30 + 3 * len(octets), cmp_decode(octets, dis))
 
-    # ---- (c) receive
-    model = chk.coq_eval('xfer', ['Model.Btpu'], [c_xfer(*case) for case in xfer_cases], 'run_xfer',
-                         chunk=max(20, len(xfer_cases) // 14 + 1))
-    for (case, obs, mod) in zip(xfer_cases, xfer_impl, model):
-        (m_counts, m_queue, m_signals, m_prog, m_timers, m_same) = mod
-        real = ([n for (n, _r) in obs['trace']], [(len(d), digest(d)) for (_b, d) in obs['queue']],
-                [(sig[0], sig[1]) for sig in obs['signals']], obs['timers'])
-        modl = (list(m_counts), [tuple(ent) for ent in m_queue], [tuple(ent) for ent in m_signals], m_timers)
-        if real != modl:
-            run.note_mismatch('recv', 'mtu=%d len=%d order=%s: model %s vs real %s' % (case[0], case[3], case[4], modl, real))
-        elif obs['progress'] is not None and lst(obs['progress']) != sorted(lst(m_prog)):
-            run.note_mismatch('recv', 'order=%s: transfers in progress differ' % (case[4],))
-        if bool(m_same) != (len(obs['queue']) == 1 and obs['queue'][0][1] == gdata(case[2], case[3])):
-            run.note_mismatch('recv', 'order=%s: model and real disagree on "queued = bundle"' % (case[4],))
-    lap('xfer')
-    # padded re-framings: the model on a spread sample (the oracle has seen all of them in phase 1)
-    budget = 420 if chk.quick() else 6000
-    stride = max(1, -(-len(pad_cases) // budget))
-    if stride % len(LAYOUTS[1:]) == 0:
-        stride += 1   # keep every layout in the sample
-    picked = [pos for pos in range(len(pad_cases)) if pos % stride == 0 and sum(len(f) for (_c, f) in pad_cases[pos][1]) <= 6000]
-    model = chk.coq_eval('padxfer', ['Model.Btpu'], [c_recv(pad_cases[pos][1]) for pos in picked], 'run_recv',
-                         chunk=max(20, len(picked) // 14 + 1))
-    chk.count('recv_padded_model_compared', len(picked))
-    for (pos, mod) in zip(picked, model):
+    # ---- (b) send (bundles of 2^20 octets: model side in the thorough tier only; the oracle saw them above)
+    def cmp_send(pos, big):
+        def compare(mod):
+            case = send_cases[pos]
+            if big:
+                got = [(entry[0], bytes(entry[1]), entry[2]) for entry in mod]
+                want = [(len(frm), frm[:24], digest(frm)) for frm in send_impl[pos][0]]
+            else:
+                got = [bytes(frm) for frm in mod]
+                want = send_impl[pos][0]
+            if got != want:
+                run.note_mismatch('send', 'mtu=%s len=%d: frames differ (model %d frame(s), real %d)' % (case[0], case[3], len(got), len(want)))
+        return compare
+
+    for (pos, case) in enumerate(send_cases):
+        if chk.quick() and case[3] > 200000:
+            chk.count('send_model_skipped_in_quick', case[3])
+            continue
+        big = case[3] > BIG
+        job('run_send_big' if big else 'run_send', c_send(*case), 40 + (case[3] // 4 if big else 4 * case[3]), cmp_send(pos, big))
+
+    # ---- (c) receive: plain and padded orders (a spread sample in the quick tier), several transfers at once, crafted
+    def cmp_xfer(pos):
+        def compare(mod):
+            (case, obs) = (xfer_cases[pos], xfer_impl[pos])
+            (m_counts, m_queue, m_signals, m_prog, m_timers, m_same) = mod
+            real = ([n for (n, _r) in obs['trace']], [(len(d), digest(d)) for (_b, d) in obs['queue']], sigs(obs), obs['timers'])
+            modl = (list(m_counts), [tuple(ent) for ent in m_queue], [tuple(ent) for ent in m_signals], m_timers)
+            if real != modl:
+                run.note_mismatch('recv', 'mtu=%d len=%d order=%s: model %s vs real %s' % (case[0], case[3], case[4], modl, real))
+            elif obs['progress'] is not None and sorted(lst(obs['progress']), key=repr) != sorted(lst(m_prog), key=repr):
+                run.note_mismatch('recv', 'order=%s: transfers in progress differ' % (case[4],))
+            if bool(m_same) != (len(obs['queue']) == 1 and obs['queue'][0][1] == gdata(case[2], case[3])):
+                run.note_mismatch('recv', 'order=%s: model and real disagree on "queued = bundle"' % (case[4],))
+        return compare
+
+    for pos in spread(range(len(xfer_cases)), 110 if chk.quick() else 10 ** 9):
+        job('run_xfer', c_xfer(*xfer_cases[pos]), 60 + 2 * xfer_cases[pos][3] * len(xfer_cases[pos][4]) // 4, cmp_xfer(pos))
+
+    def cmp_arrival(label, arrival, obs):
+        def compare(mod):
+            (m_trace, (m_prog, m_queue, m_signals, m_timers)) = mod
+            real = ([(n, bool(r)) for (n, r) in obs['trace']], [(b, d) for (b, d) in obs['queue']], sigs(obs), obs['timers'])
+            modl = ([(n, bool(r)) for (n, r) in m_trace], [(b, bytes(d)) for (b, d) in m_queue],
+                    [tuple(s) for s in m_signals], m_timers)
+            if real != modl:
+                run.note_mismatch('recv', '%s %s: model (counts %s, %d queued, signals %s) vs real (counts %s, %d queued, signals %s)' % (
+                    label, [(c, f.hex()[:40]) for (c, f) in arrival][:6], [n for (n, _r) in modl[0]], len(modl[1]), modl[2],
+                    [n for (n, _r) in real[0]], len(real[1]), real[2]))
+            elif obs['progress'] is not None and sorted(lst(obs['progress']), key=repr) != sorted(lst(m_prog), key=repr):
+                run.note_mismatch('recv', '%s %s: transfers in progress differ: model %s real %s' % (
+                    label, [(c, f.hex()[:40]) for (c, f) in arrival][:6], m_prog, obs['progress']))
+        return compare
+
+    pad_pick = [pos for pos in range(len(pad_cases)) if sum(len(f) for (_c, f) in pad_cases[pos][1]) <= 6000]
+    if chk.quick():
+        # every layout stays in the sample: spread within each layout
+        by_layout = {}
+        for pos in pad_pick:
+            by_layout.setdefault(pad_cases[pos][0][5], []).append(pos)
+        pad_pick = sorted(pos for group in by_layout.values() for pos in spread(group, 16))
+    chk.count('recv_padded_model_compared', len(pad_pick))
+    for pos in pad_pick:
         (pcase, arrival) = pad_cases[pos]
-        obs = pad_impl[pos]
-        (m_trace, (m_prog, m_queue, m_signals, m_timers)) = mod
-        real = ([(n, bool(r)) for (n, r) in obs['trace']], [(b, d) for (b, d) in obs['queue']],
-                [(s[0], s[1]) for s in obs['signals']], obs['timers'])
-        modl = ([(n, bool(r)) for (n, r) in m_trace], [(b, bytes(d)) for (b, d) in m_queue],
-                [tuple(s) for s in m_signals], m_timers)
-        if real != modl:
-            run.note_mismatch('recv', 'padded %s: model (counts %s, %d queued) vs real (counts %s, %d queued)' % (
-                list(pcase[:4]) + [pcase[4], pcase[5], pcase[6]], [n for (n, _r) in modl[0]], len(modl[1]),
-                [n for (n, _r) in real[0]], len(real[1])))
-        elif obs['progress'] is not None and lst(obs['progress']) != sorted(lst(m_prog)):
-            run.note_mismatch('recv', 'padded %s: transfers in progress differ' % (list(pcase[:4]) + [pcase[5]],))
-    lap('padxfer')
-    model = chk.coq_eval('recv', ['Model.Btpu'], [c_recv(arr) for arr in recv_cases], 'run_recv', chunk=40)
-    for (arrival, obs, mod) in zip(recv_cases, recv_impl, model):
-        (m_trace, (m_prog, m_queue, m_signals, m_timers)) = mod
-        real = ([(n, bool(r)) for (n, r) in obs['trace']], [(b, d) for (b, d) in obs['queue']],
-                [(s[0], s[1]) for s in obs['signals']], obs['timers'])
-        modl = ([(n, bool(r)) for (n, r) in m_trace], [(b, bytes(d)) for (b, d) in m_queue],
-                [tuple(s) for s in m_signals], m_timers)
-        if real != modl:
-            run.note_mismatch('recv', 'crafted %s: model %s vs real %s' % ([(c, f.hex()[:40]) for (c, f) in arrival], modl, real))
-        elif obs['progress'] is not None and lst(obs['progress']) != sorted(lst(m_prog)):
-            run.note_mismatch('recv', 'crafted %s: transfers in progress differ: model %s real %s' % (
-                [(c, f.hex()[:40]) for (c, f) in arrival], m_prog, obs['progress']))
-    lap('recv')
-    chk.obligation('correspondence:recv', not run.mismatch.get('recv'), '; '.join(run.mismatch.get('recv', [])[:3]))
+        job('run_recv', c_recv(arrival), 60 + 3 * sum(len(f) for (_c, f) in arrival),
+            cmp_arrival('padded %s' % (list(pcase[:4]) + [pcase[4], pcase[5], pcase[6]],), arrival, pad_impl[pos]))
+
+    def cmp_multi(pos):
+        def compare(mod):
+            ((transfers, arrival, name), obs) = (multi_cases[pos], multi_impl[pos])
+            if obs is None:
+                return
+            (m_counts, m_queue, m_signals, m_prog, m_timers) = mod
+            real = ([n for (n, _r) in obs['trace']], [(b, len(d), digest(d)) for (b, d) in obs['queue']], sigs(obs), obs['timers'])
+            modl = (list(m_counts), [tuple(ent) for ent in m_queue], [tuple(ent) for ent in m_signals], m_timers)
+            if real != modl:
+                run.note_mismatch('recv', 'several transfers (%s) %s arrival %s: model %s vs real %s' % (name, transfers, arrival, modl, real))
+        return compare
+
+    for pos in range(len(multi_cases)):
+        job('run_multi', c_multi(multi_cases[pos][0], multi_cases[pos][1]), 80 + 40 * len(multi_cases[pos][1]), cmp_multi(pos))
+    for (arrival, obs) in zip(recv_cases, recv_impl):
+        job('run_recv', c_recv(arrival), 60 + 3 * sum(len(f) for (_c, f) in arrival), cmp_arrival('crafted', arrival, obs))
+
+    # one representative per distinct model input
+    distinct = {}
+    for (term, weight, _cmp) in jobs:
+        distinct.setdefault(term, weight)
+    terms = sorted(distinct, key=lambda term: (-distinct[term], term))
+    nshards = max(1, min(14, len(terms) // 8))
+    shards = [[] for _ in range(nshards)]
+    loads = [0] * nshards
+    for term in terms:            # heaviest first, each to the lightest shard so far
+        tgt = loads.index(min(loads))
+        shards[tgt].append(term)
+        loads[tgt] += distinct[term]
+    width = max(len(shard) for shard in shards)
+    filler = '(@nil N)'
+    ordered = []
+    for shard in shards:          # equal-sized consecutive chunks = the shards
+        ordered.extend(shard + [filler] * (width - len(shard)))
+    chk.hist['model_evaluations'] = dict(jobs=len(jobs), distinct_terms=len(terms), shards=nshards)
+    values = chk.coq_eval('all', ['Model.Btpu'], ordered, '(fun x => x)', chunk=width)
+    result = dict((term, val) for (term, val) in zip(ordered, values) if term != filler)
+    lap('phase 2 model evaluation (%d jobs, %d distinct, %d shards)' % (len(jobs), len(terms), nshards))
+    for (term, _w, compare) in jobs:
+        compare(result[term])
+    for suite in ('codec', 'decode', 'send', 'recv'):
+        chk.obligation('correspondence:' + suite, not run.mismatch.get(suite), '; '.join(run.mismatch.get(suite, [])[:3]))
+    lap('phase 2 comparison')
     return run
 
 
@@ -1228,6 +1466,10 @@ def search_more(chk):
                     comp = compose_padded(*pcase)
                     if comp is not None and run.check_padded(pcase, comp[1], real_recv(comp[0])):
                         found = True
+        for (transfers, arrival, name) in gen_multi_cases(chk):
+            res = run_multi_real(transfers, arrival)
+            if res is not None and run.check_multi(transfers, arrival, name, res[1], res[0]):
+                found = True
         for (pos, (msgs, pad)) in enumerate(gen_codec_cases(chk)):
             impl = run.impl_codec(msgs, pad)
             if run.check_codec(msgs, pad, impl, codec_replay(msgs, pad)):
@@ -1258,6 +1500,17 @@ def replay(chk, path):
         print('replay recv mtu=%d len=%d order=%s -> signal counts %s, queue %s' % (
             case[0], case[3], case[4], [n for (n, _r) in obs['trace']], [len(d) for (_b, d) in obs['queue']]))
         why = run.check_xfer(case, obs)
+    elif suite == 'multi':
+        transfers = [tuple(t) for t in obj['transfers']]
+        arrival = [tuple(a) for a in obj['arrival']]
+        res = run_multi_real(transfers, arrival)
+        if res is None:
+            print('replay several-transfers: the sender no longer produces these frames; no judgement')
+        else:
+            print('replay several-transfers (%s): transfers (peer, vlan, xfer_num, mtu, seed, len) %s arrival %s -> signal counts %s, '
+                  'signals (id, len, peer) %s, queue %s' % (obj.get('kind'), transfers, arrival, [n for (n, _r) in res[0]['trace']],
+                                                           [(sg[0], sg[1], sg[3]) for sg in res[0]['signals']], [len(d) for (_b, d) in res[0]['queue']]))
+            why = run.check_multi(transfers, arrival, obj.get('kind', ''), res[1], res[0])
     elif suite == 'padxfer':
         case = obj['case']
         case = (case[0], case[1], case[2], case[3], list(case[4]), case[5], case[6])
@@ -1333,7 +1586,7 @@ def main():
               'and derived flags, zero padding; decode: fixed quirk corpus + truncations/bit flips/random octets of those '
               'encodings; send: grid of MTU x bundle length at every boundary of the fit test (mtu-6..mtu+1) and of the '
               'segment size (k*(mtu-18)-1,0,+1), MTU none, random; recv: all permutations of the arrival order for 2-5 '
-              'segments, random permutations for 6-33, each of them also re-framed by an independent encoder with a definite Padding message before / after / around the data message, a zero-octet tail, two segments per frame with padding between, and a second transfer sharing every frame; plus peer-crafted arrivals. Non-trivial: codec frame with more than '
+              'segments, random permutations for 6-33, each of them also re-framed by an independent encoder with a definite Padding message before / after / around the data message, a zero-octet tail, two segments per frame with padding between, and a second transfer sharing every frame (three of these seven layouts per order in the quick tier, rotating); several transfers in progress at once: 2-3 peers / VLAN tags / equal and different transfer numbers, interleaved round-robin, reversed, mixed, sequential and randomly, judged per (peer, transfer) incl. the peer address in the signal; plus peer-crafted arrivals. The model is evaluated once per distinct model input, on a spread sample of the plain/padded orders in the quick tier (the oracle sees all). Non-trivial: codec frame with more than '
               'one message or hints or padding; decode input that is a valid frame; send case with >= 2 frames; recv case '
               'whose arrival order is not the index order (or more than one arrival for crafted ones). Distinct by input.'),
         extra_cov=dict(model='coq/Model/Btpu.v', gen='coq/Gen/BtpuBudget.v (translate/targets/btpubudget.py)',
